@@ -210,7 +210,10 @@ def arithmetic_shape_rules(ctx, r_multiset, r_parity, r_power):
             continue
         mentions_exp = any(isinstance(x, ast.Name) and x.id in (en, ev_) for x in ast.walk(ret.value))
         if not mentions_exp:
-            literal_exp = f'isinstance({en}, literal_types)' in gt or f'isinstance({en}, (sym.IntLiteral, sym.FloatLiteral))' in gt
+            import re as _re
+            lit_locals = set(X.names_assigned_from(mp.node, 'Literal'))
+            literal_exp = any((m_ := _re.search(r'isinstance\(%s, ([^)]*\)?)\)' % _re.escape(en), g_)) and
+                              ('Literal' in m_.group(1) or m_.group(1).strip() in lit_locals) for g_ in guards)
             base_one = f'{bv} == 1' in gt
             if literal_exp or base_one:
                 ctx.judge(r_power, inst, facts={'guards': guards})
